@@ -176,12 +176,12 @@ func (p *Parser) parseNameAndTags(name string, labels map[string]string, tagErro
 		endIdx := strings.IndexRune(name, ']')
 
 		switch {
-		case startIdx != -1 && endIdx != -1:
+		case startIdx != -1 && endIdx != -1 && startIdx < endIdx:
 			// good signalfx tags
 			parseNameTags(name[startIdx+1:endIdx], labels, tagErrors, logger)
 			return name[:startIdx] + name[endIdx+1:]
-		case (startIdx != -1) != (endIdx != -1):
-			// only one bracket, return unparsed
+		case startIdx != -1 || endIdx != -1:
+			// only one bracket, or `]` before `[`: return unparsed
 			logger.Debug("invalid SignalFx tags, not parsing", "metric", name)
 			tagErrors.Inc()
 			return name
